@@ -755,7 +755,93 @@ def native_yield_family(case, rng, stats):
     return violations
 
 
+def native_outcomes(case):
+    """processes that wait for native activities get what a native awaiter gets: the value, the
+    failure - or the TaskCancelled of a task that is cancelled meanwhile"""
+    from usim import Scope, time, TaskCancelled
+    rng = random.Random('%s/%s/c18-native' % (case['seed'], case['index']))
+    # (failures of awaited activities are the business of the program families above)
+    fate = rng.choice(['value', 'cancelled', 'cancelled', 'cancelled-before-start'])
+    delay = rng.choice([1, 2, 3.5])
+    via = rng.choice(['task', 'coroutine awaiting the task'])
+    log = []
+    sess = Session(budget_per_step=20000, budget_total=400000)
+
+    async def activity():
+        await (time + 5)
+        if fate == 'failure':
+            raise PlainSimErr('native-failure')
+        return 'native-value'
+
+    async def relay(task):
+        return await task
+
+    def describe(kind, detail, when):
+        log.append((kind, detail, when))
+
+    async def native_awaiter(task, name):
+        try:
+            describe(name, ('value', await task), time.now)
+        except TaskCancelled as err:
+            describe(name, ('cancelled', err.subject is task, err.args), time.now)
+        except SIM_ERRORS as err:
+            describe(name, ('failure', err.tag), time.now)
+
+    async def main():
+        try:
+            await simulation()
+        except usim.Concurrent as err:
+            # (the failing activity is a child of the scope as well: reported there, too)
+            if fate != 'failure' or not all(isinstance(child, PlainSimErr)
+                                            for child in err.flattened().children):
+                raise
+
+    async def simulation():
+        env = usimpy.Environment()
+        async with Scope() as scope:
+            async with env:
+                task = scope.do(activity(), after=1 if fate == 'cancelled-before-start' else None)
+
+                def process(env):
+                    try:
+                        value = yield (task if via == 'task' else relay(task))
+                        describe('process', ('value', value), env.now)
+                    except TaskCancelled as err:
+                        describe('process', ('cancelled', err.subject is task, err.args), env.now)
+                    except SIM_ERRORS as err:
+                        describe('process', ('failure', err.tag), env.now)
+                env.process(process(env))
+                scope.do(native_awaiter(task, 'activity'))
+                if fate.startswith('cancelled'):
+                    await (time + (0.5 if fate == 'cancelled-before-start' else delay))
+                    task.cancel('no longer needed')
+                await (time + 10)
+    outcome = sess.run(main())
+    violations = [dict(v) for v in sess.violations if v['mechanism'].startswith('kernel-')]
+    by_name = {entry[0]: entry[1:] for entry in log}
+    what = 'a process waiting for a native %s that ends by %s' % (via, fate)
+    if outcome[0] != 'ok':
+        violations.append({'mechanism': 'c18:run-failed', 'msg': '%s: %r' % (what, outcome[1])})
+    elif set(by_name) != {'process', 'activity'} or by_name['process'] != by_name['activity']:
+        violations.append({'mechanism': 'c18:native-waiter',
+                           'msg': '%s: the process saw %s, a native awaiter of the same task %s'
+                                  % (what, by_name.get('process'), by_name.get('activity'))})
+    else:
+        when = {'value': 5, 'failure': 5, 'cancelled': delay, 'cancelled-before-start': 0.5}[fate]
+        kind = 'cancelled' if fate.startswith('cancelled') else fate
+        if by_name['process'][0][0] != kind or by_name['process'][1] != when:
+            violations.append({'mechanism': 'c18:native-waiter',
+                               'msg': '%s: both saw %s, expected %s at %r' % (
+                                   what, by_name['process'], kind, when)})
+    for vio in violations:
+        vio['case'] = dict(case)
+    return violations, {'native_outcomes_followed': 1}
+
+
 def run_case(case):
+    if case['index'] % 20 == 11:
+        violations, extra = native_outcomes(case)
+        return {'evals': 1, 'sigs': [], 'stats': extra, 'violations': violations, 'sample': None}
     rng = random.Random('%s/%s/c18' % (case['seed'], case['index']))
     spec = Gen(rng).program()
     out = compare(case, spec)
